@@ -50,7 +50,7 @@ func header(in string) bool {
 }
 
 var listMarker = func() map[string]bool {
-	const allListMarkers = "a b c d e f g h i j k l m n o p q r ii iii iv v vi vii viii ix xi xii xiii xiv xv"
+	const allListMarkers = "a b c d e f g h i j k l m n o p q r ii iii iv v vi vii viii ix x xi xii xiii xiv xv"
 	l := map[string]bool{}
 	for _, marker := range strings.Split(allListMarkers, " ") {
 		l[marker] = true
